@@ -9,6 +9,7 @@ import (
 	"path/filepath"
 	"sort"
 	"strings"
+	"sync"
 
 	"verif/internal/core"
 	"verif/internal/scratch"
@@ -84,6 +85,10 @@ func gofmtFiles(dir string, files []string) error {
 // regenerate runs the repository's own regeneration recipes with the given fc
 // binary in a copy W of the tree whose generated files were deleted first.
 // It returns relative path -> bytes of every regenerated file.
+// CPU time of the self-translation per generation (observed only: no verdict rests on it; it made a
+// thirteen-fold slowdown introduced by one of the repairs visible, see DESIGN §8, 4f61070)
+var c04SelfCPU sync.Map
+
 func regenerate(env *scratch.Env, fc string, label string, fcEnv []string) (map[string][]byte, string, error) {
 	W := env.Dir("regen-" + label)
 	if err := copyTree(env.Repo, W); err != nil {
@@ -104,6 +109,9 @@ func regenerate(env *scratch.Env, fc string, label string, fcEnv []string) (map[
 	}
 	runFC := func(dir string, args ...string) error {
 		res := scratch.Run(scratch.Cmd{Path: fc, Args: args, Dir: dir, Env: fcEnv, CPUSec: 120, WallSec: 600})
+		if len(args) > 2 {
+			c04SelfCPU.Store(label, res.CPU.Milliseconds())
+		}
 		if res.Exit != 0 || res.WallOut {
 			return fmt.Errorf("fc %s in %s: exit=%d signal=%s\nstdout: %s\nstderr: %s", strings.Join(args, " "), dir, res.Exit, res.Signal, tail(res.Stdout, 800), tail(res.Stderr, 1500))
 		}
@@ -255,6 +263,9 @@ func runC04(r *core.Run, tier string) {
 	}
 	r.Set("files", files)
 	r.Set("generations", 2)
+	cpu := map[string]int64{}
+	c04SelfCPU.Range(func(k, v any) bool { cpu[k.(string)] = v.(int64); return true })
+	r.Set("self_translation_cpu_ms", cpu)
 	r.Set("self_hosted_sources", fcSourceOrder(env.Repo))
 	r.Set("samples_listed", len(sampleList(env.Repo)))
 	r.Sample(map[string]any{"file": "fc/gen_parser.go", "gen1_sha": sha(g1["fc/gen_parser.go"]), "gen2_sha": sha(g2["fc/gen_parser.go"]), "bytes": len(g1["fc/gen_parser.go"])})
